@@ -78,6 +78,12 @@ def bootstrap_ci(
     alpha_lower = alpha / 2.0
     alpha_upper = 1 - alpha / 2.0
 
+    theta = np.asarray(theta)
+    if theta.dtype.kind in "iub":
+        # Replicates of an integer-valued metric: the quantile interpolation and the
+        # deviations from theta_hat wrap around when computed in a narrow integer type
+        theta = theta.astype(float)
+
     if method == "quantile":
         alpha_joint = np.stack([alpha_lower, alpha_upper], axis=0)  # (2, Z')
         ci = np.nanquantile(theta, q=alpha_joint, axis=0)  # (2, Z', Y)
